@@ -88,8 +88,37 @@ func (r *aclTokenReplicator) FetchUpdated(srv *Server, updates []string) (int, e
 }
 
 func (r *aclTokenReplicator) ensureRemoteConsistent(updates []string) ([]string, []string, error) {
-	//return true if consistent updates,
-	return []string{}, []string{}, nil
+	updatedMap := make(map[string]*structs.ACLToken)
+	for _, token := range r.updated {
+		updatedMap[token.AccessorID] = token
+	}
+
+	remoteMap := make(map[string]*structs.ACLTokenListStub)
+	for _, tokenStub := range r.remote {
+		remoteMap[tokenStub.AccessorID] = tokenStub
+	}
+
+	// Same check as for policies: the batch read may have been answered by a
+	// server that lags behind the one that answered the list.
+	var remoteNotCreated []string
+	var remoteNotUpdated []string
+	var err error
+
+	for _, tokenID := range updates {
+		if updatedToken, ok := updatedMap[tokenID]; ok {
+			if remoteToken, ok := remoteMap[tokenID]; ok {
+				if !bytes.Equal(updatedToken.Hash, remoteToken.Hash) && updatedToken.ModifyIndex < remoteToken.ModifyIndex {
+					remoteNotUpdated = append(remoteNotUpdated, tokenID)
+					err = errContainsStaleData
+				}
+			}
+		} else if remoteToken, ok := remoteMap[tokenID]; ok && remoteToken.ModifyIndex == remoteToken.CreateIndex {
+			remoteNotCreated = append(remoteNotCreated, tokenID)
+			err = errContainsStaleData
+		}
+	}
+
+	return remoteNotCreated, remoteNotUpdated, err
 }
 
 func (r *aclTokenReplicator) DeleteLocalBatch(srv *Server, batch []string) error {
